@@ -573,8 +573,9 @@ def _run(prop, tier, a, mod, out, workdir, t_start):
         "wall_s": round(time.time() - t_start, 2),
         "violations": len(lines),
     }
-    os.makedirs(os.path.join(ROOT, "evidence"), exist_ok=True)
-    with open(os.path.join(ROOT, "evidence", prop + ".json"), "w") as f:
+    evdir = os.environ.get("VERIF_EVIDENCE_DIR", os.path.join(ROOT, "evidence"))
+    os.makedirs(evdir, exist_ok=True)
+    with open(os.path.join(evdir, prop + ".json"), "w") as f:
         json.dump(ev, f, indent=1, sort_keys=True, default=str)
     for ln in lines:
         log(ln)
